@@ -1544,10 +1544,11 @@ _BUDGET = {"quick": 600.0, "thorough": 3000.0}
 
 
 def _reg_subs():
-    # quick: ~300 cases per call form; thorough x20
-    n = {"arithmetic": (8000, 160000), "conversion": (14000, 280000), "extraction": (3000, 60000),
-         "constructors": (1500, 30000), "composition": (2700, 54000), "resize": (3300, 66000),
-         "models": (4000, 80000), "measures": (1800, 36000)}
+    # quick: ~300 cases per call form; thorough x15 (measured: 866 000 thorough cases took 17 min wall
+    # on a box shared with other checks, hence x15 rather than the x30 of the design)
+    n = {"arithmetic": (8000, 120000), "conversion": (14000, 210000), "extraction": (3400, 51000),
+         "constructors": (1500, 22500), "composition": (2700, 40000), "resize": (3300, 50000),
+         "models": (4000, 60000), "measures": (1800, 27000)}
     sh = {"arithmetic": 2, "conversion": 3, "extraction": 1, "constructors": 1, "composition": 1,
           "resize": 1, "models": 3, "measures": 2}
     out = []
@@ -1575,9 +1576,9 @@ PROP = Prop(
         "implementation scales a copy in place)",
     ],
     subs=_reg_subs() + [
-        Sub("chains", check_chains, gen=gen_chains, n={"quick": 3000, "thorough": 60000},
+        Sub("chains", check_chains, gen=gen_chains, n={"quick": 3000, "thorough": 40000},
             shards={"quick": 2, "thorough": 16}, budget_s=_BUDGET),
-        Sub("arithmetic_agrees", check_arith, gen=gen_arith, n={"quick": 2000, "thorough": 40000},
+        Sub("arithmetic_agrees", check_arith, gen=gen_arith, n={"quick": 2000, "thorough": 30000},
             shards={"quick": 1, "thorough": 16}, budget_s=_BUDGET),
     ],
 )
